@@ -114,7 +114,7 @@ def family():
                stype('tb', [key('kb')], implements='aa'),
                stype('tc', [key('kc')], implements='aa', datatype=WRAP2),
                stype('td', [key('kd')], extends='tc')],
-        items=[multisection('aa', '*', attr='xs'), multisection('td', '+', attr='ds')])
+        items=[section('aa', 'sa'), multisection('aa', '*', attr='xs'), multisection('td', '+', attr='ds')])
     # a wildcard slot declared before a fixed-name slot of the same type (declaration order decides),
     # empty-string defaults, a schema-level datatype
     F['S14'] = schema(
